@@ -26,7 +26,7 @@ def conditions(tier):
             cs.append(C(H16, codec, "h_rooms_codec", h, w, t=2 * T, VERIF_LMAX=lmax,
                         key="rooms-codec:%s:%s" % (codec, "1xN" if min(h, w) == 1 else "HxW")))
     cs.append(C(H16, "heyawake", "h_rooms_codec", 2, 3, t=2 * T, VERIF_WIDEVALS=1, key="rooms-codec:heyawake:HxW"))
-    for (h, w) in ([(2, 2), (1, 3)] if q else [(2, 2), (1, 3), (3, 1), (2, 3), (3, 3)]):
+    for (h, w) in ([(2, 2), (1, 3)] if q else [(2, 2), (1, 3), (3, 1), (2, 3), (3, 2)]):
         cs.append(C(H16, "legacy", "h_legacy_segmentation", h, w, t=2 * T, VERIF_LMAX=2 if h * w <= 4 else 1, key="legacy-segmentation"))
     cs.append(C(H16, "legacy", "h_legacy_array", t=2 * T, key="legacy-array"))
     for (h, w) in ([(2, 3)] if q else [(2, 3), (3, 2), (1, 2), (2, 2)]):
